@@ -124,6 +124,15 @@ func vh_C04_create_session() {
 				if b, isBool := ev.(bool); isBool {
 					verifAssert("C04.create.unverified-email-refused", b)
 				}
+				// a claim present in any other shape must read as 'true' under the documented
+				// coercion (strconv.ParseBool spellings, non-zero numbers); "false", "0", lists and
+				// objects never yield a session (JSON null counts as absent)
+				switch v := ev.(type) {
+				case string:
+					verifAssert("C04.create.unverified-email-refused-any-spelling", v == "1" || v == "t" || v == "T" || v == "true" || v == "TRUE" || v == "True")
+				case []interface{}, map[string]interface{}:
+					verifAssert("C04.create.unverified-email-refused-any-spelling", false)
+				}
 			}
 			if es, isStr := claims["email"].(string); isStr {
 				verifAssert("C04.create.email-from-claim", ss.Email == es)
